@@ -580,6 +580,22 @@ def run_one(seed: int, index: int, tier: str) -> dict:
     stats = Counter()
     distinct = set()
     res = {"index": index, "violations": [], "evals": 0, "harness_errors": []}
+    debug_logging = stream(run_seed, "ambient").random() < 0.15
+    if debug_logging:
+        # the hosting application runs with its root logger at DEBUG (this run owns its process: a pristine fork)
+        from .kit import set_debug_logging
+        set_debug_logging()
+        probes["root_logger_at_DEBUG"] += 1
+    try:
+        res = _run_one(seed, index, tier, run_seed, tr, probes, faults, stats, distinct, res)
+    finally:
+        if debug_logging:
+            for v in res["violations"]:
+                v["workload"]["logging"] = "debug"
+    return res
+
+
+def _run_one(seed, index, tier, run_seed, tr, probes, faults, stats, distinct, res):
     try:
         check_vectors()
         probes["vectors_checked"] += 1
@@ -732,6 +748,9 @@ def run_one(seed: int, index: int, tier: str) -> dict:
 
 
 def check_workload(w):
+    if w.get("logging") == "debug":
+        from .kit import set_debug_logging
+        set_debug_logging()
     rx = Receiver()
     decls = w["decls"]
     _, structs = S.index(decls)
